@@ -38,10 +38,21 @@ theorem c17_total_counterexample_fin_in_window :
     isPanic (Sys.run {} (handshakeOps ++ [.inject .A (forge .A 17 4999 1001 65535 [7])]))
       "panic:sub-overflow:process_segment.unreceived" = true := by decide
 
-/-- F-C17-3: SYN-ACK with one byte of text in SYN-SENT: `already_received = 0 + 1 + 1` -/
-theorem c17_total_counterexample_syn_text :
-    isPanic (Sys.run {} [.open .A 1000 1500, .inject .A (forge .A 18 5000 1001 65535 [7])])
-      "panic:sub-overflow:process_segment.unreceived" = true := by decide
+/-- the bytes returned by the last op when it was a `read` -/
+def lastRead (r : Except String (Sys × List Res)) : Option (List UInt8) :=
+  match r with
+  | .ok (_, rs) => match rs.getLast? with
+    | some (.read b) => some b
+    | _ => none
+  | .error _ => none
+
+/-- F-C17-3 (fixed): a SYN-ACK with text in SYN-SENT: the text starts at `SEG.SEQ + 1`; the code
+    used to skip two bytes (or panic on a single byte), now every byte reaches the application -/
+theorem c17_regression_syn_text :
+    lastRead (Sys.run {} [.open .A 1000 1500, .inject .A (forge .A 18 5000 1001 65535 [7]), .read .A])
+      = some [7] ∧
+    lastRead (Sys.run {} [.open .A 1000 1500, .inject .A (forge .A 18 5000 1001 65535 [7, 8, 9]), .read .A])
+      = some [7, 8, 9] := by decide
 
 /-- the TCB of side A after the ops -/
 def tcbA (r : Except String (Sys × List Res)) : Option Tcb :=
